@@ -332,6 +332,7 @@ def bounds(tier, seed):
 
 FLOORS = {'compared_responses': 500, 'after_error_history': 100, 'repeat_runs': 10, 'growth_sequences': 100}
 LIVE_LIMIT = 4
+GROWTH_TOLERANCE = 16     # canonical nodes; one retained node per request would be N/2 >= 1000
 
 
 def describe(resp):
@@ -476,7 +477,9 @@ def _work(spec):
         core.add_violation(res, {'kind': 'liveness', 'seq': seq, 'n': n},
                            f'{n} x {label}: {live} per-request objects (environ dicts / input streams) are still alive after gc.collect()',
                            sig='retention-grows')
-    if half != full:
+    # the last request's own data is part of the retained state (the request object keeps its environ until the next one):
+    # its size may differ by a few nodes from request to request; growth with N is what counts
+    if full > half + GROWTH_TOLERANCE:
         core.add_violation(res, {'kind': 'liveness', 'seq': seq, 'n': n},
                            f'{n} x {label}: the retained state (application + module state) has {half} canonical nodes after {n // 2} '
                            f'repetitions and {full} after {n}: it grows with the number of requests', sig='retained-state-grows')
@@ -517,7 +520,7 @@ def _replay(case):
                 f'(application + ombott module state incl. exception traceback chains) after 4 repetitions differs from the one after 8 ({sizes} canonical nodes)')
     if case['kind'] == 'liveness':
         live, half, full = liveness(case['seq'], case['n'])
-        if live <= LIVE_LIMIT and half == full:
+        if live <= LIVE_LIMIT and full <= half + GROWTH_TOLERANCE:
             return None
         if live <= LIVE_LIMIT:
             return (f'{case["n"]} repetitions of {[KINDS[k][0] for k in case["seq"]]} (path / query changing each time): the retained state has '
